@@ -302,6 +302,7 @@ func runRTPFB(c caseDesc, m *model, oc *[]string, r *caseResult) []finding {
 	cnt := newCounters(c.Start)
 	buf := make([]byte, 1500)
 	payload := make([]byte, 400)
+	var kept []keptReport
 	for _, st := range c.Steps {
 		if st.S != "" {
 			ops, err := parseSends(st.S)
@@ -359,16 +360,35 @@ func runRTPFB(c caseDesc, m *model, oc *[]string, r *caseResult) []finding {
 				out = append(out, finding{"C09:rtpfb-report-type", fmt.Sprintf("attribute under CCFBAttributesKey has type %T", v)})
 				continue
 			}
-			for _, p := range rep.PacketReports {
-				reps = append(reps, reportView{SSRC: p.SSRC, Counter: p.SequenceNumber, RTPSeq: p.RTPSequenceNumber, TWCCSeq: p.TWCCSequenceNumber,
-					Size: p.Size, Arrived: p.Arrived, Dep: p.Departure, Arrival: p.Arrival, ECN: uint8(p.ECN)})
-			}
+			reps = viewOf(rep)
+			kept = append(kept, keptReport{rep, reps})
 		}
 		outside, newly := m.applyFeedback(d.twcc, d.ccfb, d.order)
 		fl := m.checkReport(reps, outside, newly)
 		out = append(out, fl...)
 		*oc = append(*oc, fmt.Sprintf("t%dc%d,r%s,v%d", len(d.twcc), len(d.ccfb), bucket(len(reps)), len(fl)))
 	}
+	// the application keeps the reports it was handed: what a report says does not change when later feedback is read
+	for k, kr := range kept {
+		if now := viewOf(kr.rep); fmt.Sprint(now) != fmt.Sprint(kr.was) {
+			out = append(out, finding{"C09:rtpfb-report-changed-after-delivery", fmt.Sprintf("report %d of %d (delivered with Read under CCFBAttributesKey) changed while later feedback was read:\n was %v\n now %v", k+1, len(kept), kr.was, now)})
+			break
+		}
+	}
 	_ = ic.Close()
 	return out
+}
+
+type keptReport struct {
+	rep rtpfb.Report
+	was []reportView
+}
+
+func viewOf(rep rtpfb.Report) []reportView {
+	var reps []reportView
+	for _, p := range rep.PacketReports {
+		reps = append(reps, reportView{SSRC: p.SSRC, Counter: p.SequenceNumber, RTPSeq: p.RTPSequenceNumber, TWCCSeq: p.TWCCSequenceNumber,
+			Size: p.Size, Arrived: p.Arrived, Dep: p.Departure, Arrival: p.Arrival, ECN: uint8(p.ECN)})
+	}
+	return reps
 }
